@@ -40,7 +40,8 @@ def units(run: Run):
     additive3 = A.shifted(tuple([0] * 8), A.ADD3)
     degenerate3 = tuple(0 if A.popcount(s) < 3 else 0 for s in range(8))      # all-zero game: every interval degenerate at minimal knowledge
     picks = [g3[(97 * (seed + 1) + 211 * k) % len(g3)] for k in range(4)]
-    script3 = [A.shifted(picks[0], A.ADD3), additive3, A.scaled(picks[1], 0.25), degenerate3, picks[2]]
+    script3 = [A.shifted(picks[0], A.ADD3), additive3, A.scaled(picks[1], 0.25), degenerate3, picks[2],
+               A.shifted(picks[3], tuple(A.BIG * x for x in (1, -1, 2))), A.scaled(picks[0], A.TINY)]
     for comp in SA:
         for gap_name in gaps.NAMES:
             for budget in (None, 1, 2, 3):
@@ -82,6 +83,9 @@ def units(run: Run):
     us.append((5, [g5, A.scaled(g5, 0.5)], SA[1], "l1_norm", 3, "exact5-pairs-known", 2, tuple(s for s in range(32) if A.popcount(s) == 2)))
     g6 = dict(A.larger_n_samples(6))["star+convex"]
     us.append((6, [g6], SA[1], "linf_norm", None, "exact6-small-known", 2 if quick else 3, tuple(s for s in range(64) if A.popcount(s) in (2, 3))))
+    g7 = dict(A.larger_n_samples(7))["matching-shift"]
+    us.append((7, [g7], SA[1], "l1_norm", 2, "exact7-depth1", 1))
+    us.append((7, [A.budget_game(7, 2)], "sam_apx_1", "linf_norm", None, "budget7-depth1", 1))
     if not quick:
         for i, name in enumerate(fams):
             us.append((4, [("GEN", name, 4, gens.seed_window(seed, 1)[0])], SA[1], gaps.NAMES[i % 4], None, f"gen4:{name}", None))
@@ -105,7 +109,7 @@ def run(run: Run) -> None:
                 "knowledge states x every script position, n=4: all 1024; every registered computer matching the family x four gap functions x "
                 "budgets None/1/2/3(/10), and environments with more coalitions known from the start; after every transition ALL observables and the call's return value are compared with the reference env O5. "
                 "non-trivial = distinct model states")
-    run.bounds = {"n": [3, 4] if run.quick else [3, 4, 5], "configurations": len(us), "n5_depth": 3}
+    run.bounds = {"n": [3, 4, 5, 6, 7], "configurations": len(us), "n5_depth": 3}
     run.assumptions = ["observation positions of (nearly) additive hidden games are compared with the library's own normalised copy (normalisation is C15's)",
                        "float hidden games: bounds within the G2 tolerance, gaps within 64*2^n*n*2^-53*scale"]
     run.add(fanout(unit, sorted(us, key=lambda u: -cost(u)), chunk=1))
